@@ -281,6 +281,7 @@ class Ctx:
         self.exhaustive = False
         self.disagreements = 0
         self.suppressed = 0
+        self.auto_samples = []      # actual cases of this run, taken as they are explored
         self.build = None
         self.known = load_known_findings().get(prop, [])
 
@@ -296,6 +297,8 @@ class Ctx:
         self.evaluations += 1
         if nontrivial:
             h = hash(canonical)
+            if h not in self.nontrivial and (len(self.auto_samples) < 6 or (len(self.auto_samples) < 12 and self.evaluations % 997 == 0)):
+                self.auto_samples.append(repr(canonical)[:400])
             self.nontrivial.add(h)
 
     def sample(self, x, limit=12):
@@ -348,7 +351,7 @@ def write_evidence(ctx, level_note_extra=None):
         "evaluations": ctx.evaluations,
         "distinct_nontrivial": len(ctx.nontrivial),
         "rule": ctx.rule,
-        "samples": ctx.samples[:12] or ["<none>"],
+        "samples": ([{"explored_case": x} for x in ctx.auto_samples] + ctx.samples[:12]) or ["<none>"],
         "disagreements_checked": ctx.disagreements,
         "exhaustive": ctx.exhaustive,
         "branch_coverage": ctx.coverage,
